@@ -16,6 +16,8 @@ for d in sorted(glob.glob(os.path.join(VERIF, 'seeded', '*'))):
             verdict = {0: 'missed', 1: 'caught', 2: 'machinery error'}.get(v.get('exit'), '?')
             caught.append(f"{k[6:]}: {verdict}" + (f" ({'; '.join(keys[:3])}{' ...' if len(keys) > 3 else ''})" if keys else ''))
     demo = f"{c.get('demo_clean_exit', '?')}/{c.get('demo_patched_exit', '?')}"
+    if m.get('note'):
+        caught.append('NOTE: ' + m['note'][:260])
     rows.append(f"| {os.path.basename(d)} | {m.get('summary', m.get('clause', ''))[:150].replace('|', '/')} | "
                 f"{str(m.get('needs', ''))[:170].replace('|', '/')} | {demo} | {'<br>'.join(caught)} |")
 table = ('| id | change | needs to manifest | demo exit clean/patched | checks |\n|---|---|---|---|---|\n' + '\n'.join(rows))
